@@ -61,8 +61,14 @@ def gen_points(rng, valid=True):
     rates = sorted(rng.choice([zero, hundred, rng.randrange(zero, hundred + 1)]) for _ in range(k))
     pts = list(zip(utils, rates)) + [(0, 0)] * (5 - k)
     if not valid:
-        m = rng.randrange(7)
-        if m == 0 and k >= 2:
+        m = rng.randrange(8)
+        if m == 7 and 1 <= k <= 3:
+            # a hole followed by an entry with a non-zero utilisation and a ZERO rate (between or beyond the used points):
+            # if validation let it through, the calculator would use it as a node of the curve
+            base_u = pts[rng.randrange(k)][0]
+            stray = min(U32, max(1, base_u + rng.choice([-1, 1]) * rng.randrange(1, U32 // 4)))
+            pts[k + 1] = (stray, 0)
+        elif m == 0 and k >= 2:
             i = rng.randrange(k - 1)
             pts[i], pts[i + 1] = pts[i + 1], pts[i]
         elif m == 1 and k >= 1 and k < 5:
@@ -109,8 +115,8 @@ def gen_case(rng, kind):
         opt, pl, mx = 0, 0, 0
         zero, hundred, pts = gen_points(rng, kind != "invalid")
     fees = [gen_fee(rng) for _ in range(4)]
-    if kind == "valid" and rng.random() < 0.7:
-        fees = [abs(f) % (ONE // 2) for f in fees]
+    if (kind == "valid" and rng.random() < 0.7) or (kind == "invalid" and rng.random() < 0.5):
+        fees = [abs(f) % (ONE // 2) for f in fees]      # benign fees also on half of the malformed tables: an accepted one is then judged
     prog_on = rng.randrange(2)
     pf, pr = (abs(gen_fee(rng)) % ONE, abs(gen_fee(rng)) % ONE) if rng.random() < 0.8 else (gen_fee(rng), gen_fee(rng))
     urs = set([0, ONE, 1, ONE - 1, ONE + 1, -1])
